@@ -18,6 +18,8 @@ import (
 func dump(args []string) int {
 	fs := flag.NewFlagSet("dump", flag.ExitOnError)
 	fn := fs.String("func", "", "pkg.Func or pkg.Type.Method (module-relative, root package is '.')")
+	encM := fs.String("enc", "", "evaluate this Encoder method; -ipin name=int,... pins integer fields (err=0 pins nil)")
+	ipin := fs.String("ipin", "", "integer field pins for -enc")
 	rendM := fs.String("rend", "", "evaluate this Renderer method on the post-Reset state")
 	opq := fs.String("opaque", "", "comma separated function names kept opaque (with -rend)")
 	pinA := fs.String("pin", "", "comma separated Renderer fields pinned to atoms (with -rend)")
@@ -27,6 +29,34 @@ func dump(args []string) int {
 	if err != nil {
 		fmt.Println(err)
 		return 2
+	}
+	if *encM != "" {
+		ctx := &rules.Ctx{P: prog, R: report.NewRun("dump", "quick", 0)}
+		var o, pa []string
+		if *opq != "" {
+			o = strings.Split(*opq, ",")
+		}
+		if *pinA != "" {
+			pa = strings.Split(*pinA, ",")
+		}
+		ip := map[string]int64{}
+		if *ipin != "" {
+			for _, kv := range strings.Split(*ipin, ",") {
+				var k string
+				var v int64
+				parts := strings.SplitN(kv, "=", 2)
+				k = parts[0]
+				fmt.Sscan(parts[1], &v)
+				ip[k] = v
+			}
+		}
+		in, mem := rules.DebugEnc(ctx, *encM, o, ip, pa)
+		if in == nil {
+			fmt.Println("not found")
+			return 2
+		}
+		printRun(in, nil, mem)
+		return 0
 	}
 	if *rendM != "" {
 		ctx := &rules.Ctx{P: prog, R: report.NewRun("dump", "quick", 0)}
